@@ -491,9 +491,13 @@ package tree
 //@   modifies allelems(*LeafEntry)
 //@   ensures keeps_collected: len(r0) >= len(acc) && forall(i, 0, len(acc), r0[i] == old(acc[i]))
 //@ func (*childMap).GetAll
-//@   trusted copies the child map under its lock
-//@   noeffect
+//@   props C01 C02
+//@   requires c != nil
+//@   modifies nothing
 //@   ensures same_children: allstr(k, present(result, k) == present(c.c, k) && (present(c.c, k) ==> result[k] == c.c[k]))
+//@   ensures a_copy: result != nil && fresh(result)
+//@   loop 0 invariant $map == c.c && result != nil && fresh(result) && unchanged(allmaps(map[string]Entry))
+//@   loop 0 invariant allstr(k, present(result, k) == $visited[k]) && allstr(k, $visited[k] ==> present(c.c, k) && result[k] == c.c[k])
 
 //@ func (*sharedEntryAttributes).GetByOwner
 //@   props C02 C01
